@@ -356,10 +356,10 @@ def session(R):
     R.ob('C17.session', 'default session class', d is not None and U(d) == 'WebsocketSession', 'session_class default %s' % U(d),
          func=f, node=None, construct='session_class default')
     rc = calls_to(R, g, 'session.WebsocketSession.run')
-    ok = len(rc) == 1 and isinstance(rc[0][1].func, ast.Attribute)
-    if ok:
-        recv = rc[0][1].func.value
-        ok = isinstance(recv, ast.Name) and st and rd.defs_at(rc[0][0], recv.id) == {st[0]}
+    ok = len(rc) >= 1
+    for (rn_, rc_) in rc:
+        recv = rc_.func.value if isinstance(rc_.func, ast.Attribute) else None
+        ok = ok and isinstance(recv, ast.Name) and bool(st) and rd.defs_at(rn_, recv.id) == {st[0]}
     R.ob('C17.session', 'run() is started on the new session', bool(ok), 'run generator created on %s' % (
         U(rc[0][1].func) if rc else None), func=f, node=(rc[0][1] if rc else None))
     init = R.func('session.WebsocketSession.__init__')
